@@ -141,6 +141,11 @@ int main(void) {
       if (skip_case) printf("skip\n");
       else if ((start & 0xfff) || (n & 0xfff) || n == 0 || n > (1<<20) || map_pages(start, n, PROT_READ|PROT_WRITE)) { skip_case=1; printf("skip\n"); }
       else { uint8_t *p=(uint8_t*)start; for (uint64_t k=0;k<n;k++){ x = x*6364136223846793005ULL + 1442695040888963407ULL; p[k]=x>>56; } printf("ok\n"); }
+    } else if (!strcmp(w[0],"mwb") && nw==3) {
+      uint64_t a = strtoull(w[1],0,16); size_t n = unhex(w[2], buf, sizeof buf);
+      if (skip_case) printf("skip\n");
+      else if (n == 0 || !is_mapped(a, n)) { skip_case=1; printf("skip\n"); }
+      else { memcpy((void*)a, buf, n); printf("ok\n"); }
     } else if (!strcmp(w[0],"nonative")) {
       skip_case=1; printf("skip\n");
     } else if (!strcmp(w[0],"prot") && nw==3) {
